@@ -394,9 +394,18 @@ def r7(p, rep):
         if h is None or e is None or not h.node.args.args or len(e.node.args.args) < 2:
             continue
         hs, es, eo = h.node.args.args[0].arg, e.node.args.args[0].arg, e.node.args.args[1].arg
-        used = {y.attr for y in ast.walk(h.node) if isinstance(y, ast.Attribute) and isinstance(y.value, ast.Name) and y.value.id == hs and not isinstance(getattr(y, "_parent", None), ast.Call) or False}
-        used = {y.attr for y in ast.walk(h.node) if isinstance(y, ast.Attribute) and isinstance(y.value, ast.Name) and y.value.id == hs and not (isinstance(getattr(y, "_parent", None), ast.Call) and getattr(y, "_parent").func is y)}
-        compared = {y.attr for y in ast.walk(e.node) if isinstance(y, ast.Attribute) and isinstance(y.value, ast.Name) and y.value.id in (es, eo)}
+        # class-level constants (`_HASH_SEED = 8`) are not state
+        consts = {t.id for k in p.mro(c) for st in k.node.body if isinstance(st, ast.Assign) for t in st.targets if isinstance(t, ast.Name)}
+        used = {y.attr for y in ast.walk(h.node) if isinstance(y, ast.Attribute) and isinstance(y.value, ast.Name) and y.value.id == hs and not (isinstance(getattr(y, "_parent", None), ast.Call) and getattr(y, "_parent").func is y)} - consts
+        # __eq__ with comparison helpers written out (`return _equal_inner(Cls, self, other)`)
+        ecfg = CFG(e.node)
+        exprs = []
+        for r_ in ast.walk(e.node):
+            if isinstance(r_, (ast.Return, ast.If, ast.Assign)):
+                v_ = r_.value if isinstance(r_, (ast.Return, ast.Assign)) else r_.test
+                if v_ is not None and ecfg.node_for(r_) is not None:
+                    exprs.append(ecfg.expand(v_, ecfg.node_for(r_)))
+        compared = {y.attr for x_ in exprs + [e.node] for y in ast.walk(x_) if isinstance(y, ast.Attribute) and isinstance(y.value, ast.Name) and y.value.id in (es, eo)}
         extra = used - compared
         rep.add("C06.R7", f"{c.qualname}:hash-subset-of-eq", f"{c.module.rel}:{h.node.lineno}", not extra, f"__hash__ uses {sorted(used)}, all compared by __eq__" if not extra else f"__hash__ uses {sorted(extra)}, which __eq__ ignores: two equal objects land in different hash buckets, so a set / dict of them keeps both (e.g. the set of candidate output expressions no longer collapses equal inputs and 'b... c, b... c' is rejected as ambiguous)")
 
